@@ -564,6 +564,19 @@ getset_reg_u8(cf);
 getset_reg_u8(af);
 getset_reg_u8(df);
 
+/* System flags: the Python back end reads and writes the registers through
+   these attributes */
+getset_reg_u8(tf);
+getset_reg_u8(i_f);
+getset_reg_u8(iopl_f);
+getset_reg_u8(nt);
+getset_reg_u8(rf);
+getset_reg_u8(vm);
+getset_reg_u8(ac);
+getset_reg_u8(vif);
+getset_reg_u8(vip);
+getset_reg_u8(i_d);
+
 
 getset_reg_u16(ES);
 getset_reg_u16(CS);
@@ -765,6 +778,16 @@ static PyGetSetDef JitCpu_getseters[] = {
     {"cf", (getter)JitCpu_get_cf, (setter)JitCpu_set_cf, "cf", NULL},
     {"af", (getter)JitCpu_get_af, (setter)JitCpu_set_af, "af", NULL},
     {"df", (getter)JitCpu_get_df, (setter)JitCpu_set_df, "df", NULL},
+    {"tf", (getter)JitCpu_get_tf, (setter)JitCpu_set_tf, "tf", NULL},
+    {"i_f", (getter)JitCpu_get_i_f, (setter)JitCpu_set_i_f, "i_f", NULL},
+    {"iopl_f", (getter)JitCpu_get_iopl_f, (setter)JitCpu_set_iopl_f, "iopl_f", NULL},
+    {"nt", (getter)JitCpu_get_nt, (setter)JitCpu_set_nt, "nt", NULL},
+    {"rf", (getter)JitCpu_get_rf, (setter)JitCpu_set_rf, "rf", NULL},
+    {"vm", (getter)JitCpu_get_vm, (setter)JitCpu_set_vm, "vm", NULL},
+    {"ac", (getter)JitCpu_get_ac, (setter)JitCpu_set_ac, "ac", NULL},
+    {"vif", (getter)JitCpu_get_vif, (setter)JitCpu_set_vif, "vif", NULL},
+    {"vip", (getter)JitCpu_get_vip, (setter)JitCpu_set_vip, "vip", NULL},
+    {"i_d", (getter)JitCpu_get_i_d, (setter)JitCpu_set_i_d, "i_d", NULL},
     {"ES", (getter)JitCpu_get_ES, (setter)JitCpu_set_ES, "ES", NULL},
     {"CS", (getter)JitCpu_get_CS, (setter)JitCpu_set_CS, "CS", NULL},
     {"SS", (getter)JitCpu_get_SS, (setter)JitCpu_set_SS, "SS", NULL},
